@@ -95,6 +95,7 @@ type env struct {
 	exitEp uint64
 	maxDly int
 	noise  bool
+	types  []*typeSpec // allTypes plus this run's seeded version variants (variants_test.go)
 
 	pkOf map[tbls.PrivateKey]tbls.PublicKey // harness-private cache
 
@@ -254,6 +255,8 @@ func body(c *kernel.Ctx) {
 		{Epoch: startEpoch + 2 + eth2p0.Epoch(verifrt.Intn("cfg", 2)), Version: eth2p0.Version{0x03, 0x00, 0x10, 0x20}},
 	}
 	cl.Chain.Forks = e.forks
+	var variants []string
+	e.types, variants = chooseVariants()
 	e.exitEp = uint64(startEpoch) - 1 // walk down from the past: the window-edge cases use the newest allowed epochs
 	cl.WireOpts = func(node int) []core.WireOption {
 		if node != e.target {
@@ -304,6 +307,7 @@ func body(c *kernel.Ctx) {
 	c.Set("threshold", cl.Threshold)
 	c.Set("target", e.target)
 	c.Set("noise", e.noise)
+	c.Set("variants", strings.Join(variants, ","))
 
 	cases := e.enumerate()
 	// seeded order of enumeration (tape 0 = canonical order)
